@@ -30,7 +30,7 @@ def mutate(p, rng):
     q = copy.deepcopy(p)
     files = q["files"]
     root = files["laze-project.yml"][0]
-    kind = rng.choice(["delete", "type", "string", "string", "empty-list", "parent-cycle", "self-include", "dup", "unknown-ref",
+    kind = rng.choice(["delete", "type", "string", "string", "empty-list", "parent-cycle", "parent-cycle-tail", "self-include", "dup", "unknown-ref",
                        "no-ext", "no-rule", "bad-expr", "empty-name", "defaults-ctxlist", "export-empty-map", "notify-string",
                        "builddep-nofiles", "download-norule", "cli", "var-cycle"])
     slots = [s for f in files.values() for d in f for s in walk(d)]
@@ -58,6 +58,16 @@ def mutate(p, rng):
             a["parent"] = b["name"]
             if b["name"] != "default":
                 b["parent"] = a["name"]
+    elif kind == "parent-cycle-tail":
+        # contexts that are not on a cycle themselves but whose parent chain runs into one, at random list positions
+        k = rng.randint(2, 3)
+        cyc = [{"name": f"cy{i}", "parent": f"cy{(i + 1) % k}"} for i in range(k)]
+        tails = [{"name": "tail0", "parent": rng.choice(cyc)["name"]}]
+        if rng.random() < 0.5:
+            tails.append({"name": "tail1", "parent": "tail0"})
+        for c in cyc + tails:
+            lst = root[rng.choice(["contexts", "builders"])]
+            lst.insert(rng.randint(0, len(lst)), c)
     elif kind == "self-include":
         f = rng.choice(list(files.keys()))
         files[f][0][rng.choice(["includes", "subdirs"])] = [rng.choice([f.split("/")[-1], ".", "../" + f])]
